@@ -76,13 +76,15 @@ def make_ctx(tag, name):
     return (FalsyCtx if rid_of(name) in FALSY else Ctx)(tag, name)
 
 
-RESULT_KINDS = ["ok", "bare404", "bare403", "bare500", "empty404", "404hdr", "404body"]
+RESULT_KINDS = ["ok", "bare404", "bare403", "bare500", "empty404", "404hdr", "404body", "raise", "raise-os"]
 
 
 def visible(kind, tag):
     """what the client is to see from a handler result: b"<status>:<body unless it is http.server's error page>" """
     if kind == "ok":
         return b"200:" + tag
+    if kind.startswith("raise"):           # handle() raises: the 500 page, and nobody else is asked
+        return b"500:"
     if kind.startswith("bare"):
         return kind[4:].encode() + b":"
     if kind in ("empty404", "404hdr"):
@@ -166,6 +168,10 @@ class RecHttp(HS.HttpRequestHandler):
         tag = h[0].encode()
         if kind == "ok":
             return (http.HTTPStatus.OK, None, io.BytesIO(tag))
+        if kind == "raise":
+            raise RuntimeError("scripted handle failure")
+        if kind == "raise-os":
+            raise FileNotFoundError(2, "scripted backend failure")
         if kind in ("bare404", "bare403", "bare500"):
             return (http.HTTPStatus(int(kind[4:])), None, None)
         if kind == "empty404":
@@ -348,7 +354,7 @@ def tftp_request(c):
         time.sleep(0.12)                        # the receive loop is now blocked in the proxy's recvmsg
         proxy.script = [c["anc_mode"]]
     fam = socket.AF_INET if c["fam"] == 4 else socket.AF_INET6
-    dst = V4 if c["fam"] == 4 else V6
+    dst = dst_of(c)
     s = socket.socket(fam, socket.SOCK_DGRAM)
     s.settimeout(_patience())
     try:
@@ -375,12 +381,13 @@ def tftp_request(c):
 def http_request(c):
     srv, sockname = http_server(c["bind"], c["proto"] == 3, c.get("restart"))
     fam = socket.AF_INET if c["fam"] == 4 else socket.AF_INET6
-    dst = V4 if c["fam"] == 4 else V6
+    dst = dst_of(c)
     s = socket.socket(fam, socket.SOCK_STREAM)
     s.settimeout(_patience())
     cport = 0
     buf = []
     try:
+        s.bind((dst, 0))                      # the client's own address = the address it talks to (as the UDP client does)
         s.connect((dst, sockname[1]))
         cport = s.getsockname()[1]
         req = ("%s %s HTTP/1.%d\r\n" % (c["method"], c["name"].decode("latin-1"), c.get("httpver") or 0)
@@ -403,8 +410,13 @@ def http_request(c):
 
 
 # ----------------------------------------------------------------------------- check
-def mapped(fam):
-    return V4M if fam == 4 else V6
+def dst_of(c):
+    """the local address the client talks to"""
+    return (c.get("dst4") or V4) if c["fam"] == 4 else V6
+
+
+def mapped(c):
+    return ("::ffff:" + dst_of(c)) if c["fam"] == 4 else V6
 
 
 class C10(Check):
@@ -436,7 +448,7 @@ class C10(Check):
                 yield bind, fam
 
     def mk(self, proto, bind, fam, pktinfo, handlers, stem=b"", tail=b"", mail=False, method="GET", headers=None,
-           restart=None, debug=False, repeat=None, anc_mode=None, falsy_ctx=False, httpver=0, host="one"):
+           restart=None, debug=False, repeat=None, anc_mode=None, falsy_ctx=False, httpver=0, host="one", dst4=None):
         rid = next(self._seq)
         token = b"id%dx" % rid
         if proto in (1, 3):
@@ -452,7 +464,7 @@ class C10(Check):
                  "mixed": [("host", "a"), ("HOST", "b")]}[host]
         hd = hosts[:1] + [("X-Verif-Id", str(rid))] + list(headers or []) + hosts[1:]
         return {"proto": proto, "bind": bind, "fam": fam, "pktinfo": pktinfo, "rid": rid, "name": name,
-                "mail": mail, "method": method, "headers": hd if proto in (1, 3) else [], "restart": restart, "debug": debug, "repeat": repeat, "anc_mode": anc_mode, "falsy_ctx": falsy_ctx, "httpver": httpver,
+                "mail": mail, "method": method, "headers": hd if proto in (1, 3) else [], "restart": restart, "debug": debug, "repeat": repeat, "anc_mode": anc_mode, "falsy_ctx": falsy_ctx, "httpver": httpver, "dst4": dst4,
                 "handlers": [("h%d-%d" % (i, rid),) + ((bool(a[0]), a[1]) if isinstance(a, tuple) else (bool(a), "ok"))
                              for i, a in enumerate(handlers)]}
 
@@ -527,6 +539,14 @@ class C10(Check):
                 yield self.mk(1, "::", 6, True, v, tail=b"/inf?x=1", debug="info")
             yield self.mk(2, "::", 6, True, (True,), debug=lvl)
             yield self.mk(3, "::", 6, True, (True,), debug=lvl, headers=[("X-Rep", "1")])
+        # the local address a request arrives on, at the edges of the octets (the loopback network is a /8: all of these are
+        # ordinary unicast host addresses of this machine)
+        for d4 in ("127.0.0.255", "127.0.255.255", "127.255.255.254", "127.0.0.0", "127.0.1.0", "127.1.2.3", "127.0.0.254", "127.224.0.1", "127.0.0.2"):
+            for pk in (True, False):
+                for v in ((True,), (False, False)):
+                    yield self.mk(0, "::", 4, pk, v, stem=b"d4/", dst4=d4)
+            yield self.mk(1, "::", 4, True, (False, True), tail=b"/d4", dst4=d4)
+            yield self.mk(2, "::", 4, True, (True,), dst4=d4)
         # HTTP/1.0 and HTTP/1.1 request lines with one, no, two, an empty Host field: every one is dispatched like any other
         for ver in (0, 1):
             for host in ("one", "none", "two", "empty", "mixed"):
@@ -739,7 +759,7 @@ class C10(Check):
         return out
 
     def line(self, c, o):
-        dst = mapped(c["fam"])
+        dst = mapped(c)
         raw = socket.inet_pton(socket.AF_INET6, dst)
         sn = o["sockname"]
         sockname = [sn[0].encode(), SPORT] + list(sn[2:])
@@ -770,7 +790,7 @@ class C10(Check):
     def show(self, c):
         return {"proto": ["tftp", "http", "tftp+file-handler", "http+file-handler"][c["proto"]], "bind": c["bind"],
                 "client_family": "IPv%d" % c["fam"], "pktinfo": c["pktinfo"], "name": c["name"].decode("latin-1"),
-                "mail_mode": c["mail"], "method": c["method"], "http_version": "1.%d" % (c.get("httpver") or 0), "headers": c["headers"],
+                "mail_mode": c["mail"], "method": c["method"], "http_version": "1.%d" % (c.get("httpver") or 0), "headers": c["headers"], "ipv4_destination": c.get("dst4"),
                 "server_log_level": {None: "WARNING (default)", False: "WARNING (default)", True: "DEBUG", "info": "INFO"}.get(c.get("debug")), "restart": c.get("restart"),
                 "same_request_sent_n_times(last one observed)": c.get("repeat"),
                 "recvmsg_ancillary_data_for_this_datagram": c.get("anc_mode"), "falsy_context_objects": bool(c.get("falsy_ctx")),
